@@ -73,7 +73,7 @@ def run(ctx, corr_broken):
         bad = property_fails(o, i)
         if bad:
             ctx.violation("msg-timeout-above-max", bad, "op: %s\nimpl: %s\n(TestVerifMsgTimeoutOptions; "
-                          "corpus/C04/known/msg_timeout_above_max.ops)\n" % (o, i))
+                          "corpus/C04/fixed/msg_timeout_above_max.ops)\n" % (o, i))
     ctx.corr["optcheck"] = hist
     for o, i in list(zip(ops, impl))[:2]:
         ctx.add_sample({"op": o, "impl": i}, limit=12)
